@@ -113,7 +113,20 @@ static int inject(const char *what)
     return 0;
 }
 
-#define COLL(cls, sig, comm, name) do { shim_ncoll++; coll_tick(); board_coll((cls), (sig), comm_members(comm), (name)); } while (0)
+/* race check (board.c): epochs are delimited by collectives that synchronise all ranks */
+int shim_race_on = 0;              /* set by the executor around library calls whose internal file traffic is judged (enddef) */
+static long shim_epoch = 0;
+static void race_sync(int cls, unsigned members)
+{
+    if (!(cls == CL_ALLREDUCE || cls == CL_BARRIER || cls == CL_ALLGATHER || cls == CL_ALLTOALL)) return;
+    if (world_np < 2 || members != (world_np >= 32 ? 0xffffffffu : ((1u << world_np) - 1))) return;
+    /* board_coll has returned: every rank has arrived, so every access of the finished epoch is in the log */
+    if (shim_race_on) board_acc_check(shim_epoch);
+    shim_epoch++;
+}
+void shim_race_case_reset(void) { shim_epoch = 0; board_acc_reset(); }
+void shim_race_flush(void) { if (shim_race_on) board_acc_check(shim_epoch); shim_epoch++; }
+#define COLL(cls, sig, comm, name) do { unsigned mm_ = comm_members(comm); shim_ncoll++; coll_tick(); board_coll((cls), (sig), mm_, (name)); race_sync((cls), mm_); } while (0)
 #define FCOLL(cls, sig, fh, name) do { shim_ncoll++; coll_tick(); board_coll((cls), (sig), fh_members(fh), (name)); } while (0)
 
 /* ---------------- communicator collectives ---------------- */
@@ -257,11 +270,30 @@ static void hull(MPI_File fh, MPI_Offset off, int count, MPI_Datatype t, int at,
       PMPI_Type_get_envelope(ft, &ni, &na, &nd, &comb); if (comb != MPI_COMBINER_NAMED) PMPI_Type_free(&ft); }
 }
 
+/* exact byte range of an access, only when the current file view is contiguous (returns 0 otherwise: no claim is made) */
+static int hull_exact(MPI_File fh, MPI_Offset off, int count, MPI_Datatype t, int at, long *lo, long *hi)
+{
+    MPI_Offset disp, byteoff = 0; MPI_Datatype et, ft; char rep[MPI_MAX_DATAREP_STRING + 1];
+    MPI_Aint lb, ext; long nbytes = (long)count * tsize(t), fs; int exact;
+    if (nbytes <= 0) return 0;
+    if (!at) PMPI_File_get_position(fh, &off);
+    PMPI_File_get_byte_offset(fh, off, &byteoff);
+    PMPI_File_get_view(fh, &disp, &et, &ft, rep);
+    fs = tsize(ft); PMPI_Type_get_extent(ft, &lb, &ext);
+    exact = (fs > 0 && fs == ext);
+    *lo = byteoff; *hi = byteoff + nbytes;
+    { int ni, na, nd, comb;
+      PMPI_Type_get_envelope(et, &ni, &na, &nd, &comb); if (comb != MPI_COMBINER_NAMED) PMPI_Type_free(&et);
+      PMPI_Type_get_envelope(ft, &ni, &na, &nd, &comb); if (comb != MPI_COMBINER_NAMED) PMPI_Type_free(&ft); }
+    return exact;
+}
+
 #define INDEP_PRE(kind, at, name) \
     long lo = 0, hi = 0; int bad; \
     shim_nindep++; \
     if (board_active() && board_ptr()->sched_on) hull(fh, off, c, t, at, &lo, &hi); \
     board_indep(kind, lo, hi, name); \
+    if (shim_race_on) { long rl, rh; if (hull_exact(fh, off, c, t, at, &rl, &rh)) board_acc_log(shim_epoch, kind, rl, rh); } \
     inj_bytes = (long)c * tsize(t); bad = inject(name); inj_bytes = -1; \
     trace("%c%s@%lld+%ld;", kind ? 'w' : 'r', bad ? "!" : "", (long long)off, (long)c * tsize(t));
 
@@ -276,16 +308,31 @@ int MPI_File_read(MPI_File fh, void *b, int c, MPI_Datatype t, MPI_Status *s)
 
 #define COLLIO_PRE(cls, name, ch) \
     int bad; \
+    if (shim_race_on) { long rl, rh; if (hull_exact(fh, COLLIO_OFF, c, t, COLLIO_AT, &rl, &rh)) board_acc_log(shim_epoch, ch == 'W', rl, rh); } \
     FCOLL(cls, 0, fh, name); \
     inj_bytes = (long)c * tsize(t); bad = inject(name); inj_bytes = -1; \
     trace("%c%s+%ld;", ch, bad ? "!" : "", (long)c * tsize(t));
 
+#define COLLIO_OFF off
+#define COLLIO_AT 1
 int MPI_File_write_at_all(MPI_File fh, MPI_Offset off, const void *b, int c, MPI_Datatype t, MPI_Status *s)
 { COLLIO_PRE(CL_FILE_WRITE_ALL, "MPI_File_write_at_all", 'W'); if (bad) { PMPI_File_write_at_all(fh, off, b, 0, MPI_BYTE, s); return shim_fault_class; } return PMPI_File_write_at_all(fh, off, b, c, t, s); }
+#undef COLLIO_OFF
+#undef COLLIO_AT
+#define COLLIO_OFF 0
+#define COLLIO_AT 0
 int MPI_File_write_all(MPI_File fh, const void *b, int c, MPI_Datatype t, MPI_Status *s)
 { COLLIO_PRE(CL_FILE_WRITE_ALL, "MPI_File_write_all", 'W'); if (bad) { PMPI_File_write_all(fh, b, 0, MPI_BYTE, s); return shim_fault_class; } return PMPI_File_write_all(fh, b, c, t, s); }
+#undef COLLIO_OFF
+#undef COLLIO_AT
+#define COLLIO_OFF off
+#define COLLIO_AT 1
 int MPI_File_read_at_all(MPI_File fh, MPI_Offset off, void *b, int c, MPI_Datatype t, MPI_Status *s)
 { COLLIO_PRE(CL_FILE_READ_ALL, "MPI_File_read_at_all", 'R'); if (bad) { PMPI_File_read_at_all(fh, off, b, 0, MPI_BYTE, s); return shim_fault_class; } return PMPI_File_read_at_all(fh, off, b, c, t, s); }
+#undef COLLIO_OFF
+#undef COLLIO_AT
+#define COLLIO_OFF 0
+#define COLLIO_AT 0
 int MPI_File_read_all(MPI_File fh, void *b, int c, MPI_Datatype t, MPI_Status *s)
 { COLLIO_PRE(CL_FILE_READ_ALL, "MPI_File_read_all", 'R'); if (bad) { PMPI_File_read_all(fh, b, 0, MPI_BYTE, s); return shim_fault_class; } return PMPI_File_read_all(fh, b, c, t, s); }
 
